@@ -172,6 +172,9 @@ def run(ctx):
         dflt.fail({"record": hexb(allb)}, "decode_record without an encoding argument does not read every byte as the latin-1 character", "default/all-bytes")
     streams.append(dflt)
 
+    # numbers a program puts into a record are written as their own decimal text (2.0 is not 2)
+    from harness.props import C08
+    streams.append(C08.numbers_stream(ctx, ctx.rng("C07.numbers")))
     x = Stream("exploratory-noncanonical", in_domain=False)
     lines, impls, metas = [], [], []
     weird = [[["a", None]], [[None, None]], [[["a", "b"]]], [b"\xff\xfe", "x"], [["€"]], [[["x"], ["y", None]]],
